@@ -82,6 +82,8 @@ Definition PBorderLeftWidth : N := Eval vm_compute in prop_id "border-left-width
 Definition PBorderRightWidth : N := Eval vm_compute in prop_id "border-right-width".
 Definition POutlineWidth : N := Eval vm_compute in prop_id "outline-width".
 Definition PMarks : N := Eval vm_compute in prop_id "marks".
+Definition PLineHeight : N := Eval vm_compute in prop_id "line-height".
+Definition PVerticalAlign : N := Eval vm_compute in prop_id "vertical-align".
 
 (* properties.go:488 IsTextDecoration *)
 Definition is_text_decoration (p : N) : bool :=
@@ -439,6 +441,23 @@ Section Computers.
     | VInfPx => Fail 7
     | _ => Fail 1
     end.
+
+  (* computed_values.go:975-977 with text.StrutLayout (text/text.go:128-168): a percentage
+     of vertical-align is taken of the height of the strut of the element's own style.
+     fs, lh = the element's computed font size and line height.  font size 0: no strut
+     (131-134); line-height normal: the height the font gives (None: outside the model);
+     otherwise the line height itself (a number times the font size), 159-163.  Not part
+     of `compute` (the percentage stays a recorded result there): Check/C04.v audits every
+     recorded result against this function. *)
+  Definition valign_percent (q fs : Q) (lh : value) : option Q :=
+    if Qeq_bool fs 0 then Some 0%Q
+    else match lh with
+         | VDim s l u =>
+             if s ==s "normal" then None
+             else let h := if u =? U_Scalar then mul ar l fs else l in
+                  Some (div ar (mul ar h q) (cst 100))
+         | _ => None
+         end.
 
   Definition dim_only (v : value) : prog value :=     (* the functions below assert pr.DimOrS first *)
     match v with VDim _ _ _ | VInfPx => Ret v | _ => Fail 1 end.
